@@ -45,4 +45,7 @@ theorem finding_cog17_temperature_negative :
   simp only [epv_tree, epv_cond, epv_leaf]
   norm_num
 
+/-- non-vacuity of the universal statement: the witness above lies in the range -/
+example : (0 : ℝ) < 40 ∧ (-2 : ℝ) ≤ -3 / 2 ∧ (-3 / 2 : ℝ) ≤ -1 ∧ (1 : ℝ) ≤ 1 ∧ (1 : ℝ) ≤ 3 := by norm_num
+
 end EPV.C17
